@@ -290,6 +290,40 @@ func C_two_in_flight() {
 	vnd.Reach("executed")
 }
 `)
+	// requests whose data holds a nil value or an empty key: whatever the call answers, the instance comes back
+	for _, pc := range poolCalls() {
+		if strings.Contains(pc.call, "data[\"req\"]") {
+			continue // the request/response entry point takes no data map
+		}
+		name := "N_" + pc.name
+		fmt.Fprintf(&b, `
+// %s with a nil value and an empty key in the data map
+func %s() {
+	gp := zzReqPool(1, 2)
+	all := zzAllWrappers(gp)
+	names := []string{"a", "b"}
+	stag := &Stag{}
+	_, _ = names, stag
+	for round := 0; round < 3; round++ {
+		data := map[string]interface{}{"req": int64(1), "resp": int64(5), "fail": false}
+		if round == 0 {
+			data["nothing"] = nil
+		} else if round == 1 {
+			data[""] = int64(3)
+		}
+		_, _ = %s
+		vnd.Quiesce()
+		zzPartition(gp, all, nil)
+		zzLocksFree(gp)
+	}
+	g1, _ := gp.getGengine()
+	g2, _ := gp.getGengine()
+	vnd.Assert(g1 != nil && g2 != nil && g1 != g2, "after any number of requests the pool still serves max requests at once")
+	vnd.Reach("executed")
+}
+`, pc.name, name, pc.call)
+		fam.Instances = append(fam.Instances, Instance{Func: name, Stratum: "release:odd-input", Desc: pc.name + " with a nil value / empty key in its data", Expect: []string{"executed"}})
+	}
 	// a request that found every instance busy proceeds as soon as any instance is handed back
 	for _, back := range []string{"initial", "additional"} {
 		name := "W_waiter_" + back
